@@ -177,8 +177,9 @@ let snap_oracle (prop : string) (ops : op list) (obs : string list) : string =
           | _ -> ());
          (match c.c_rot with None when not c.c_append && prop <> "C18" -> logged := [] | _ -> ());
          cfg := Some c; live := true; flushed := true; prev_stop := false; seg := []; seg_ok := true; note_target c
-       | OReset c -> cfg := Some c; flushed := true; note_target c;
-         if ob = "r0" then (seg := []; seg_ok := true) else seg_ok := false
+       | OReset c ->
+         (* a rejected reset (other write mode) changes nothing *)
+         if ob = "r0" then (cfg := Some c; flushed := true; note_target c; seg := []; seg_ok := true)
        | OExtRename _ | OExtRemove _ -> seg_ok := false
        | OWrite b | OPlain b ->
          if !live && ob = "r0" then (logged := !logged @ b; seg := !seg @ b;
@@ -501,7 +502,7 @@ let run_line (prop : string) (line : string) : string =
   if k < 0 then "skip no-observation" else
   let case = String.sub line 0 k and obs = String.sub line (k + 4) (String.length line - k - 4) in
   match split_on ' ' case with
-  | _ :: "flw" :: rest -> flw_oracle prop rest (List.filter (fun s -> s <> "") (split_on ' ' obs))
+  | _ :: ("flw" | "flwl") :: rest -> flw_oracle prop rest (List.filter (fun s -> s <> "") (split_on ' ' obs))
   | _ :: "conc" :: rest -> conc_oracle rest obs
   | _ :: "mt" :: rest -> mt_oracle rest obs
   | _ :: "lh" :: rest -> lh_oracle rest (List.filter (fun s -> s <> "") (split_on ' ' obs))
